@@ -30,6 +30,9 @@ NoKey        == Key("none", "none")
 (* signature: both verify.  For ed25519 strict verification only form 0    *)
 (* (canonical S) verifies.  Forms 2 and 3 are the signature bytes with one *)
 (* byte appended / removed: a signature of the wrong length never verifies.*)
+(* Form 4 is the same signature value in another standard container       *)
+(* (ECDSA: fixed-size r||s instead of DER; ed25519: DER OCTET STRING       *)
+(* wrapping): only the one wire encoding the specification fixes verifies. *)
 (***************************************************************************)
 Sig(k, m) == [signer |-> k, msg |-> m, form |-> 0]
 
